@@ -1,8 +1,10 @@
 package main
 
 import (
+	"encoding/hex"
 	"fmt"
 	"math"
+	"strconv"
 	"strings"
 	"sync"
 
@@ -96,6 +98,34 @@ func c04RandValue(r *Rng, method string) string {
 		return famTokList(l)
 	case "u_rec":
 		return famTokRec(famRec{A: Pick(r, ints), B: famRandText(r)})
+	case "u_slist":
+		l := make([]string, r.Intn(4))
+		for i := range l {
+			l[i] = famRandText(r)
+		}
+		return famTokSList(l)
+	case "u_imap", "u_smap":
+		m := map[string]string{}
+		for n := r.Intn(4); n > 0; n-- {
+			if method == "u_imap" {
+				m[famRandKey(r)] = strconv.FormatInt(Pick(r, ints), 10)
+			} else {
+				m[famRandKey(r)] = XS(famRandText(r))
+			}
+		}
+		return famTokMap(map[string]string{"u_imap": "mi:{", "u_smap": "ms:{"}[method], m)
+	case "u_dec2":
+		return "d2:" + Pick(r, []string{"0.00", "1.50", "-12345678.99", "99999999.99", "0.01"})
+	case "u_dec4":
+		return "d4:" + Pick(r, []string{"0.0000", "1.5000", "-1234567890123456.7891", "0.0001"})
+	case "u_fsb4":
+		return "fb:" + X(r.Bytes(4))
+	case "u_fsb8":
+		return "fb:" + X(r.Bytes(8))
+	case "u_tsn":
+		return "tn:" + strconv.FormatInt(Pick(r, []int64{0, 1, -1, 1700000000123456, -62135596800000000}), 10)
+	case "u_tsz":
+		return "tz:" + strconv.FormatInt(Pick(r, []int64{0, 1, -1, 1700000000123456, 253402300799999999}), 10)
 	default:
 		return "void"
 	}
@@ -131,6 +161,22 @@ func c04RandOutcome(r *Rng, method string) famOutcome {
 	}
 }
 
+// c04HeaderTransport: `httpx:<hex of the X-Request-ID header value>`.
+func c04HeaderTransport(r *Rng, rid string) string {
+	v := Pick(r, []string{rid, "hdr-req-9", "hdr-req-9", " ", "", strings.Repeat("H", 300), "3f2b8c1e-7a55-4a39-9d0c-000000000000", rid + "-x"})
+	return "httpx:" + fmt.Sprintf("%x", v)
+}
+
+func c04RandTransport(r *Rng, rid string) string {
+	switch r.Intn(3) {
+	case 0:
+		return "pipe"
+	case 1:
+		return "http"
+	}
+	return c04HeaderTransport(r, rid)
+}
+
 func c04Line(transport, method, lvl, rid string, sc *famUnaryScript) string {
 	return strings.Join(append([]string{"call", transport, method, XS(lvl), XS(rid)}, sc.tokens()...), " ")
 }
@@ -146,8 +192,31 @@ func c04Gen(g *Gen) {
 			sc := &famUnaryScript{Logs: c04RandLogs(r, 6), Out: c04RandOutcome(r, method)}
 			lvl := famRandLevel(r)
 			rid := Pick(r, rids)
-			// the same program on both transports
+			// the same program on both transports; over HTTP also with an X-Request-ID header that is
+			// absent / equal / different / blank / oversized, independently of the batch's request id
 			lines = append(lines, c04Line("pipe", method, lvl, rid, sc), c04Line("http", method, lvl, rid, sc))
+			if r.Chance(50) {
+				lines = append(lines, c04Line(c04HeaderTransport(r, rid), method, lvl, rid, sc))
+			}
+		}
+		g.Case(lines...)
+	}
+	// type-family histories: methods whose result columns share an Arrow type id but differ in the
+	// type's parameters, interleaved in ONE history, each logging and failing (log / error batches
+	// are zero-row batches of the method's result schema)
+	for i := g.N(250, 4000); i > 0; i-- {
+		fam := Pick(r, famTypeFamilies)
+		var lines []string
+		for k := r.Range(3, 6); k > 0; k-- {
+			method := fam[(k+i)%len(fam)]
+			if r.Chance(15) {
+				method = Pick(r, famUnaryMethods)
+			}
+			sc := &famUnaryScript{Logs: c04RandLogs(r, 2), Out: c04RandOutcome(r, method)}
+			if len(sc.Logs) == 0 && sc.Out.Kind == "ret" {
+				sc.Logs = []famLog{{Level: "INFO", Msg: "typed"}}
+			}
+			lines = append(lines, c04Line(c04RandTransport(r, "rid-"+strconv.Itoa(k)), method, "", "rid-"+strconv.Itoa(k), sc))
 		}
 		g.Case(lines...)
 	}
@@ -169,7 +238,8 @@ func c04Gen(g *Gen) {
 			default:
 				sc = &famUnaryScript{Logs: c04RandLogs(r, 2), Out: famOutcome{Kind: "err", Sub: "shared", Int: slot}}
 			}
-			lines = append(lines, c04Line(Pick(r, []string{"pipe", "http"}), method, famRandLevel(r), Pick(r, ids), sc))
+			rid := Pick(r, ids)
+			lines = append(lines, c04Line(c04RandTransport(r, rid), method, famRandLevel(r), rid, sc))
 		}
 		g.Case(lines...)
 	}
@@ -192,6 +262,8 @@ func c04Gen(g *Gen) {
 }
 
 type c04Call struct {
+	header                      string // X-Request-ID header of an HTTP call
+	hasHeader                   bool
 	transport, method, lvl, rid string
 	script                      *famUnaryScript
 }
@@ -204,6 +276,13 @@ func c04ParseLine(l string) (*c04Call, error) {
 	c := &c04Call{transport: f[1], method: f[2]}
 	lvl, ok1 := UnX(f[3])
 	rid, ok2 := UnX(f[4])
+	if strings.HasPrefix(c.transport, "httpx:") {
+		h, err := hex.DecodeString(c.transport[6:])
+		if err != nil {
+			return nil, fmt.Errorf("bad X-Request-ID token")
+		}
+		c.header, c.hasHeader, c.transport = string(h), true, "http"
+	}
 	if !ok1 || !ok2 || (c.transport != "pipe" && c.transport != "http") {
 		return nil, fmt.Errorf("bad call header")
 	}
@@ -236,7 +315,7 @@ func c04Exec(c *Case) {
 		if info.Void {
 			voidFlag = "1"
 		}
-		modelLine := strings.Join(append([]string{"call", call.transport, famSchemaCanon(info.ResultSchema), voidFlag}, f[3:]...), " ")
+		modelLine := strings.Join(append([]string{"call", f[1], famSchemaCanon(info.ResultSchema), voidFlag}, f[3:]...), " ")
 		req := famRequest(call.method, strings.Join(f[5:], " "), call.lvl, call.rid)
 
 		var body []byte
@@ -250,7 +329,12 @@ func c04Exec(c *Case) {
 			}
 			body = out
 		case "http":
-			rec, p := famHTTPPost(c04HTTP, "/"+call.method, req)
+			var hdr [][2]string
+			if call.hasHeader {
+				hdr = append(hdr, [2]string{"X-Request-ID", call.header})
+				c.Stat("http-x-request-id")
+			}
+			rec, p := famHTTPPost(c04HTTP, "/"+call.method, req, hdr...)
 			if p != nil {
 				c.Out(modelLine, "err:server-panic")
 				c.Oracle("http-server-panic", fmt.Sprintf("ServeHTTP panicked: %v", p))
